@@ -4,6 +4,7 @@ import (
 	"encoding/json"
 	"flag"
 	"fmt"
+	"github.com/jimlambrt/gldap"
 	"time"
 
 	"verif/harness/internal/berx"
@@ -144,7 +145,9 @@ func C20(args []string) error {
 	in := fs.String("in", "", "behaviours")
 	outp := fs.String("out", "", "trace")
 	par := fs.Int("par", 4, "parallel directories")
+	churn := fs.Bool("churn", false, "call the directory's getters and Set* methods (those that do not change what the model holds) while clients are served")
 	fs.Parse(args)
+	c20Churn = *churn
 	var bs []dBehaviour
 	if err := hx.ReadLines(*in, func(b []byte) error {
 		var v dBehaviour
@@ -182,6 +185,8 @@ func C20(args []string) error {
 	return out.Close()
 }
 
+var c20Churn bool
+
 func c20Worker(w, par int, bs []dBehaviour, sym *dirSym, parts [][]dEvent) error {
 	transport := w % 2 // even workers: plain; odd workers: TLS
 	d, err := hx.StartDir(transport == 0, false)
@@ -203,6 +208,29 @@ func c20Worker(w, par int, bs []dBehaviour, sym *dirSym, parts [][]dEvent) error
 		}
 		defer c.Close()
 		clients[i] = &dirClient{c: c, msgid: int64(1000 * (i + 1))}
+	}
+	if c20Churn {
+		stopChurn := make(chan struct{})
+		defer close(stopChurn)
+		go func() {
+			ctl, _ := gldap.NewControlString("1.2.3.4", gldap.WithControlValue("v"))
+			for n := 0; ; n++ {
+				select {
+				case <-stopChurn:
+					return
+				default:
+				}
+				_ = len(d.D.Users()) + len(d.D.Groups()) + len(d.D.Controls()) + len(d.D.TokenGroups())
+				_ = d.D.AllowAnonymousBind()
+				if n%3 == 0 {
+					d.D.SetControls(ctl)
+				} else {
+					d.D.SetControls()
+				}
+				d.D.SetTokenGroups(map[string][]*gldap.Entry{"S-1-1": nil})
+				time.Sleep(50 * time.Microsecond)
+			}
+		}()
 	}
 	rev := sym.rev()
 	initUsers := []dEntry{{DN: "u1", Attrs: []dAttr{{"a1", []string{"v1"}}, {"a2", []string{"v2"}}, {"password", []string{"p"}}}}, {DN: "u2", Attrs: []dAttr{{"a1", []string{"v1"}}}}}
